@@ -4,7 +4,11 @@ from props.regcommon import RB, entries
 from props.hist import prehistory, encoded_region
 
 ID = "C02"
-THEOREMS = [("FlatModel.Props.C01", "FC.C02.frame_history"), ("FlatModel.Props.C01", "FC.C02.issued_valid")]
+THEOREMS = [("FlatModel.Props.C01", "FC.C02.frame_history"), ("FlatModel.Props.C01", "FC.C02.issued_valid"),
+            ("FlatModel.Props.C09", "FC.C02.frame_reserve"), ("FlatModel.Props.C04", "FC.issued_reads"),
+            ("FlatModel.Props.C05", "FC.C05.push_keeps_prefix"), ("FlatModel.Props.C05", "FC.C05.indexOptimized_spill_keeps_prefix"),
+            ("FlatModel.Props.C05", "FC.C05.indexList_chonk_keeps_smol"), ("FlatModel.Props.C06Bits", "FC.Huff.frame_bits"),
+            ("FlatModel.Props.C06Bits", "FC.C06.frame_coded"), ("FlatModel.Props.C11", "FC.C11.hit_or_miss")]
 LEAN_TARGETS = ["FlatModel.Generated.Covered"]
 PROFILES = {"quick": ["checked"], "thorough": ["checked", "wrapping"], "search": ["checked"]}
 RULE = ("histories mixing push (any form), reserve_items, reserve_regions and FlatStack::reserve on every catalogue entry and "
